@@ -185,10 +185,13 @@ Definition do_flush (c : hcfg) (s : kst) (b : N) : kst :=
   | STomb sq :: q =>
       set_i (set_tlog (set_q s q) (if tomb c then ktlog s ++ [sq] else ktlog s)) (ki s ++ [STomb sq])
   | SReins v sq :: q =>
-      (* Runner::recv: skipped if the hash is not in the indexer *)
-      match (if bug_rr c then Some (0, 0, 0) else idx_get (kidx s)) with
-      | Some _ =>
-          set_i (set_idx (set_disk (set_q s q) (kdisk s ++ [(v, sq, b)])) (idx_insert (kidx s) (IAddr sq v b))) (ki s ++ [SReins v sq])
+      (* Runner::recv: skipped unless this copy is the one the indexer points to (repair 1323d87; the pinned snapshot
+         only asked whether the hash was indexed at all, which kept superseded copies alive) *)
+      match (if bug_rr c then Some (sq, 0, 0) else idx_get (kidx s)) with
+      | Some (sq', _, _) =>
+          if sq' =? sq then
+            set_i (set_idx (set_disk (set_q s q) (kdisk s ++ [(v, sq, b)])) (idx_insert (kidx s) (IAddr sq v b))) (ki s ++ [SReins v sq])
+          else set_q s q
       | None => set_q s q
       end
   end.
